@@ -926,7 +926,7 @@ func init() {
 			return 3200
 		},
 		Run:    runC05,
-		Floors: map[string]int64{"histories": 3000, "rounds": 15000, "prunes": 3000, "crash_points": 8000, "dead_vs_reach_checks": 50000, "nodes_pruned": 5000, "dead_nodes_reported": 20000, "max:prune_stream_writes": 2, "lower_prunes_after_a_failed_prune": 800, "competing_blocks_saved_at_the_same_version": 2500},
+		Floors: map[string]int64{"rounds_that_only_remove_or_put_back_one_path": 1200, "histories": 3000, "rounds": 15000, "prunes": 3000, "crash_points": 8000, "dead_vs_reach_checks": 50000, "nodes_pruned": 5000, "dead_nodes_reported": 20000, "max:prune_stream_writes": 2, "lower_prunes_after_a_failed_prune": 800, "competing_blocks_saved_at_the_same_version": 2500},
 		Assumptions: []string{
 			"same storage model as C04 (atomic batches, completed writes survive a process crash)",
 			"GetDeletes() of the block trie is the round's dead set, recorded under the round's version as the node does it",
